@@ -64,6 +64,9 @@ class _Under:
             return not any(key.startswith(u) for u in used)
         return False
 
+    def undecided(self, rid, what):
+        self.ctx.undecided(rid, what)
+
     def check(self, cond, rid, key, ok_detail, bad_msg, loc=None, path=None):
         if self._skip(rid, key):
             return bool(cond)
